@@ -55,6 +55,21 @@ pub fn passes(tier: &str) -> Vec<Pass> {
         a.max_reopen = 1;
         v.push(mk("delete-while-journals-pinned", d.clone(), a, "two_sealed_journals_z", if q { 4 } else { 6 }, 4, if q { 6.0 } else { 200.0 }));
     }
+    for (name, kind) in [("tx-single-writer/same-key-in-several-keyspaces", DbKind::SingleWriter), ("tx-optimistic/same-key-in-several-keyspaces", DbKind::Optimistic)] {
+        let mut a = Alpha::empty();
+        let it = |ks, k, v| Item { ks, k, v };
+        a.ins = vec![(1, 0, 1)];
+        a.txs = vec![
+            vec![it(0, 0, Some(0)), it(1, 0, Some(0))],
+            vec![it(0, 2, Some(1)), it(1, 0, None), it(1, 2, Some(1))],
+            vec![it(0, 0, None), it(1, 0, Some(1)), it(2, 0, Some(0))],
+        ];
+        a.create = vec![2];
+        a.delete = vec![1];
+        a.reopen = true;
+        a.max_reopen = 1;
+        v.push(mk(name, Cfg { kind, ..d.clone() }, a, "", if q { 3 } else { 5 }, 2, if q { 3.0 } else { 150.0 }));
+    }
     if !q {
         v.push(mk("tiny", Cfg { tiny: true, ..d.clone() }, alpha(false), "", 6, 4, 300.0));
         v.push(mk("blob", Cfg { blob: true, ..d.clone() }, alpha(false), "", 6, 4, 300.0));
